@@ -239,7 +239,7 @@ def run_unit(ctx, unit):
             if o2.result != "ok":
                 st.violation("run-%s:%s" % (mode, o2.result), "run failed: %s" % o2.errtext, unit, None)
                 return
-            line = o2.stdout.decode().split("\n")[1 if mode == "csv" else 0]
+            line = o2.stdout.decode("utf-8", "replace").split("\n")[1 if mode == "csv" else 0]
             sep = ", " if mode == "csv" else "\t"
             if line.split(sep) != [str(xs[0]), str(xs[1])]:
                 st.violation("integer-changed:" + mode, "%s output does not carry the integers digit for digit" % mode, unit,
